@@ -459,6 +459,32 @@ def rule_moves_do_not_write(ctx: Ctx) -> RuleResult:
     return rr
 
 
+def rule_esc_restarts(ctx: Ctx) -> RuleResult:
+    """An ESC that arrives while a control sequence is still unfinished abandons that sequence and begins a new one
+    (ECMA-48 / every VT100-style terminal).  process_char()'s ESC arm therefore resets the parser - parsestate and
+    the sequence buffer, i.e. leave_escape() - before it marks the start of the new sequence.  Before fix abf2912 it
+    only set within_escape: `zz ESC[1 ESC[2J x` stayed in the old CSI, the '[' aborted it and `2Jx` was printed."""
+    from ..rules.exc import ExcEngine
+
+    p = ctx.p
+    rr = RuleResult("ORDER", "C15.29", "the ESC arm of process_char resets the parser state before it opens the new sequence", floor=1)
+    fi = p.func(f"{VT}.TermCanvas.process_char")
+    cfg = cfg_of(fi)
+    tests = [t for t in cfg.nodes if t.kind == "test" and "ESC_B" in ast.unparse(t.ast)]
+    if not tests:
+        raise AnalysisError("process_char: the ESC test was not found")
+    opens = [n for n in cfg.nodes if isinstance(n.ast, ast.Assign) and any(isinstance(t, ast.Attribute) and t.attr == "within_escape" for t in n.ast.targets) and isinstance(n.ast.value, ast.Constant) and n.ast.value.value is True and any(n not in ExcEngine._reach_without_edge(cfg, t, "T") for t in tests)]
+    if not opens:
+        raise AnalysisError("process_char: `self.within_escape = True` under the ESC test was not found")
+    resets = nodes_where(cfg, lambda c: isinstance(c, ast.Call) and isinstance(c.func, ast.Attribute) and c.func.attr == "leave_escape") + [n for n in cfg.nodes if isinstance(n.ast, ast.Assign) and any(isinstance(t, ast.Attribute) and t.attr == "parsestate" for t in n.ast.targets)]
+    for o in opens:
+        ok = any(o not in cfg.reachable_from_edges([(t, "T")], avoid=resets) for t in tests)
+        rr.inst("ESC arm", True, {"opens": norm(o.ast, 40), "parser_reset_first": ok})
+        if not ok:
+            rr.add(finding("ORDER", fi, o.ast, "the ESC arm sets within_escape without resetting parsestate / the sequence buffer: an ESC inside an unfinished CSI leaves the parser in the old sequence, the following '[' aborts it and the parameter and final bytes of the new sequence are printed as text", construct="ESC does not abandon an unfinished sequence"))
+    return rr
+
+
 def rule_scroll_mirror(ctx: Ctx) -> RuleResult:
     """scroll() moves the rows of the scrolling region by one: it removes the row at one margin and inserts a blank
     row at the other, so every row outside the region keeps its place.  Both arms (forward, reverse) pop at a region
@@ -1012,6 +1038,7 @@ def run(ctx: Ctx):
         rule_snapshot_stays_snapshot(ctx),
         rule_scroll_mirror(ctx),
         rule_moves_do_not_write(ctx),
+        rule_esc_restarts(ctx),
     ]
     return out
 
@@ -1020,6 +1047,7 @@ from ..mutants import Mut  # noqa: E402
 
 _V = "urwid/vterm.py"
 MUTANTS = [
+    Mut("esc-keeps-unfinished-sequence", "urwid/vterm.py", "TermCanvas.process_char", "            # an ESC abandons an unfinished sequence and starts a new one\n            self.leave_escape()\n", "", "ORDER|vterm.TermCanvas.process_char|ESC does not abandon an unfinished sequence"),
     Mut("cr-keeps-pending-wrap", "urwid/vterm.py", "TermCanvas.carriage_return", "        self.is_rotten_cursor = False  # column 0 is not a pending wrap, also on a terminal one column wide\n", "", "PASS|vterm.TermCanvas.carriage_return|carriage_return: cursor placed with the pending wrap kept"),
     Mut("tab-blanks-the-cursor-cell", "urwid/vterm.py", "TermCanvas.tab", "        while x < self.width - 1:\n            x += 1\n", "        while x < self.width - 1:\n            self.set_char(b\" \")\n            x += 1\n", "WRITER|vterm.TermCanvas.tab|tab: cell writer set_char in a pure movement"),
     Mut("charset-designation-in-place", _V, "TermCharset.define", "        self._g = [*self._g[:g], charset, *self._g[g + 1 :]]\n", "        self._g[g] = charset\n", "ALIAS|vterm.TermCharset.define|TermCharset: container edited in place although instances are shallow-copied"),
